@@ -139,14 +139,19 @@ pub fn run(case: &Case, j: Judge) -> Outcome {
         o.stats.api_calls += 1;
         match &got {
             Res::Panic(p) => {
-                if j.property != "C07" {
+                // (panics and runaways are C11's subject; the other users of the scenario end the case)
+                if j.property == "C11" {
                     report(&mut o, "panic", &normalise_site(p), format!("step {} {}{}: {}", i, op.to_json(), if stale { " (handle 0 is stale: its stream was removed)" } else { "" }, p), i);
+                } else {
+                    o.stats.probe("out_of_scope:panic");
                 }
                 break;
             }
             Res::Hang => {
-                if j.property != "C07" {
+                if j.property == "C11" {
                     report(&mut o, "hang", op.kind(), format!("step {} {}: seam-step budget exceeded", i, op.to_json()), i);
+                } else {
+                    o.stats.probe("out_of_scope:hang");
                 }
                 break;
             }
